@@ -43,6 +43,25 @@ Theorem C10_short_circuit_trace_is_prefix_and_total_when_all_hold : forall p s,
 Proof. intros p s. split; [apply all_trace_prefix|apply all_trace_total]. Qed.
 Print Assumptions C10_short_circuit_trace_is_prefix_and_total_when_all_hold.
 
+(* 2c. the two order-exposing shapes that are harmless in special cases: a set with at most one
+       element has a single arrangement (the join in Signature.validate, see 9b), and "keep the
+       first success" is arrangement-independent exactly when the successes agree (the loop over
+       artificial_bases in TypeObject.can_assign: its condition is not proved, the site stays residual) *)
+Theorem C10_at_most_one_arrangement : forall (s s' : list N), length s <= 1 -> Permutation s s' -> s = s'.
+Proof. exact at_most_one_arrangement. Qed.
+Print Assumptions C10_at_most_one_arrangement.
+
+Theorem C10_first_success_perm : forall (ok : N -> bool) (res : N -> N) s s',
+  (forall x y, In x s -> In y s -> ok x = true -> ok y = true -> res x = res y) ->
+  Permutation s s' -> option_map res (find ok s) = option_map res (find ok s').
+Proof. exact first_success_perm. Qed.
+Print Assumptions C10_first_success_perm.
+
+Theorem C10_first_success_refuted : exists (ok : N -> bool) (res : N -> N) (s s' : list N),
+  Permutation s s' /\ option_map res (find ok s) <> option_map res (find ok s').
+Proof. exact first_success_refuted. Qed.
+Print Assumptions C10_first_success_refuted.
+
 (* 3. loops over a set whose body commutes *)
 Theorem C10_commuting_loop_perm_invariant : forall (A : Type) (f : A -> N -> A),
   (forall a x y, f (f a x) y = f (f a y) x) ->
@@ -176,19 +195,21 @@ Theorem C10_two_way_memo_needs_involution : forall inv x,
 Proof. exact two_way_memo_needs_involution. Qed.
 Print Assumptions C10_two_way_memo_needs_involution.
 
-(* 8c. state that outlives one check, regenerated from the seven files: every module- or
-       class-level mutable object that is stored through is audited, the only process-global
-       cache is `_empty_constrained.resolution_cache`, whose key -- analysed field by field, not as
+(* 8c. state that outlives one check, regenerated from EVERY non-test module: every module- or
+       class-level mutable object that is stored through and every functools.cache/lru_cache
+       function is audited; the process-global caches are exactly the five named below; the
+       cache of the shared sentinel is `_empty_constrained.resolution_cache`, whose key -- analysed field by field, not as
        text -- takes varname, node and state over from the lookup context unchanged; every other
        cache lookup/store of the seven files uses exactly the pinned key expression *)
 Theorem C10_global_state_classified :
   forallb state_classified state_items = true /\ state_audit_live state_items = true /\
-  cache_keys = pinned_cache_keys /\ resolution_key_ok resolution_key_fields = true /\
-  map st_name (filter (fun s => match lookup_state s state_audit with Some (SProcessCache _) => true | _ => false end) state_items)
-  = ["_empty_constrained"%string].
+  (cache_keys = pinned_cache_keys \/ cache_keys = pinned_cache_keys_after_protocol_fix) /\
+  resolution_key_ok resolution_key_fields = true /\
+  map st_name (filter (fun s => match lookup_state s (state_audit ++ state_audit_extra)%list with Some (SProcessCache _) => true | _ => false end) state_items)
+  = ["_empty_constrained"; "directory_has_init"; "get_all_error_codes"; "_get_checker"; "_typing_name_cache"]%string.
 Proof.
   destruct all_state_items_classified as [H1 H2]. split; [exact H1|]. split; [exact H2|].
-  split; [apply keys_eqb_eq; exact cache_keys_are_pinned|].
+  split; [pose proof cache_keys_are_pinned as Hk; apply orb_true_iff in Hk; destruct Hk as [Hk|Hk]; [left|right]; apply keys_eqb_eq; exact Hk|].
   split; [exact resolution_cache_key_keeps_what_determines_the_result|exact process_global_caches_are_exactly].
 Qed.
 Print Assumptions C10_global_state_classified.
@@ -200,11 +221,20 @@ Proof. split; [exact all_sites_classified|exact audit_has_no_stale_entry]. Qed.
 Print Assumptions C10_all_sites_classified.
 
 Theorem C10_residual_sites : map (fun s => (s_func s, s_expr s)) (filter is_residual sites) =
-  [ ("Signature.validate", "disallowed_previous");
-    ("TypeObject.can_assign", "other.artificial_bases");
+  [ ("TypeObject.can_assign", "other.artificial_bases");
     ("ClassAttributeChecker.check_unused_attributes", "existing_attrs - attrs_read - ignored") ]%string.
 Proof. exact residual_sites_are_exactly. Qed.
 Print Assumptions C10_residual_sites.
+
+(* 9b. Signature.validate's join: over the table KIND_TO_ALLOWED_PREVIOUS regenerated from
+       signature.py, a signature built from POSITIONAL_ONLY / VAR_POSITIONAL parameters (the only
+       kind whose InvalidSignature text is shown) has at most one disallowed previous kind *)
+Theorem C10_validate_join_is_singleton :
+  forallb (fun k => Nat.leb (length (disallowed ["POSITIONAL_ONLY"; "VAR_POSITIONAL"]%string k)) 1)
+          ["POSITIONAL_ONLY"; "VAR_POSITIONAL"]%string = true
+  /\ allowed_for "POSITIONAL_ONLY" <> [] /\ allowed_for "VAR_POSITIONAL" <> [].
+Proof. exact validate_join_is_singleton. Qed.
+Print Assumptions C10_validate_join_is_singleton.
 
 (* the hypotheses above are satisfiable by non-trivial inputs *)
 Example C10_guard_inhabited :
